@@ -25,7 +25,9 @@ type ContinuousPool struct {
 	stopWorkers        atomic.Bool
 }
 
-func (p *ContinuousPool) Start(ctx context.Context) {
+// Start starts the workers and returns a context that is done once the workers have been told to
+// stop: when ctx is done or when max iterations has been reached.
+func (p *ContinuousPool) Start(ctx context.Context) context.Context {
 	workerCtx, workerCtxCancel := context.WithCancel(ctx)
 	p.workerCtxCancel = workerCtxCancel
 
@@ -44,6 +46,8 @@ func (p *ContinuousPool) Start(ctx context.Context) {
 		<-workerCtx.Done()
 		p.stopWorkers.Store(true)
 	}()
+
+	return workerCtx
 }
 
 func (p *ContinuousPool) maxIterationsReached() {
